@@ -5,7 +5,7 @@ import ast
 from typing import Dict, List, Optional, Set, Tuple
 
 from ..db import ProgramDB, FuncInfo, ClassInfo, AnalysisError, unparse, own_nodes, dotted
-from ..facts import own_calls, call_attr, resolve_call_target, bind_args, local_defs
+from ..facts import own_calls, call_attr, resolve_call_target, bind_args, local_defs, fn_params
 from ..framework import inst, HOLDS, VIOLATION, UNDECIDED, INFO, Instance
 
 
@@ -718,3 +718,144 @@ def rule_infer_mark_transient(db: ProgramDB) -> List[Instance]:
     if n == 0:
         out.append(inst("INFER-MARK", INFO, se, "constructors[no foreign inferred mark]", "no constructor marks another node as inferred"))
     return out
+
+
+# ---------------------------------------------------------------------------------- SELECTOR-ROW-DEDUP
+def _default_of(fn: FuncInfo, name: str) -> Optional[ast.AST]:
+    a = fn.node.args
+    pos = a.posonlyargs + a.args
+    for arg, d in zip(pos[len(pos) - len(a.defaults):], a.defaults):
+        if arg.arg == name:
+            return d
+    for arg, d in zip(a.kwonlyargs, a.kw_defaults):
+        if arg.arg == name:
+            return d
+    return None
+
+
+C12_SELECTORS = ("Alternative", "ExceptIf")      # what `alternative(...)` and `refinement(...)` build
+
+
+def rule_selector_row_dedup(db: ProgramDB) -> List[Instance]:
+    """'Each assignment … produces the conclusion ripple-down rules prescribe': the selectors that refinement / alternative build work
+    per ASSIGNMENT.  The operators they inherit their evaluation from drop a true row when an earlier row agreed with it on the
+    variables the parent asks for - for a selector those are the variables the conclusions mention - which is sound for a
+    condition and wrong for a selector: two assignments that agree on those variables can select different conclusions (a
+    refinement below tests a variable no conclusion mentions).  So, for each of these selector classes, either the duplicate test it
+    resolves never answers 'duplicate' (conclusions are de-duplicated where they are attached, update_conclusion), or no site
+    of its evaluation chain applies the test to a true row."""
+    from ..boolexpr import guards_of
+    out = []
+    for cname in C12_SELECTORS:
+        c = db.cls(cname)
+        dup = c.lookup("_is_duplicate_output_")
+        if dup is None:
+            raise AnalysisError(f"{cname}: _is_duplicate_output_ not resolved")
+        rets = [r for r in own_nodes(dup.node) if isinstance(r, ast.Return)]
+        never = bool(rets) and all(isinstance(r.value, ast.Constant) and r.value.value is False for r in rets)
+        if never:
+            out.append(inst("SELECTOR-ROW-DEDUP", HOLDS, c, f"{cname}[true rows are not dropped by variable values]",
+                            f"resolves `{dup.short}`, which never answers 'duplicate'"))
+            continue
+        # the evaluation chain: the class's _evaluate__ and what it reaches through super() / self calls
+        chain, todo, seen = [], ["_evaluate__"], set()
+        start = 0
+        mro = c.mro
+        def walk(name: str, from_idx: int):
+            for j in range(from_idx, len(mro)):
+                if name in mro[j].methods and mro[j].methods[name].cls is mro[j]:
+                    m = mro[j].methods[name]
+                    if m.qualname in seen:
+                        return
+                    seen.add(m.qualname)
+                    chain.append(m)
+                    for call in own_calls(m):
+                        f = call.func
+                        if isinstance(f, ast.Attribute) and isinstance(f.value, ast.Call) and dotted(f.value.func) == "super":
+                            walk(f.attr, j + 1)
+                        elif isinstance(f, ast.Attribute) and isinstance(f.value, ast.Name) and f.value.id == "self" and f.attr != "_is_duplicate_output_":
+                            if c.lookup(f.attr) is not None and not f.attr.startswith("__"):
+                                walk(f.attr, 0)
+                    return
+        walk("_evaluate__", 0)
+        bad = None
+        n_sites = 0
+        for m in chain:
+            for call in own_calls(m):
+                if call_attr(call) != "_is_duplicate_output_":
+                    continue
+                n_sites += 1
+                gs = list(guards_of(call, m.node.body) or [])
+                # conjuncts evaluated before the call in its own test: `(is_false or …) and self._is_duplicate_output_(…)`
+                par = db.parent(call)
+                while isinstance(par, ast.UnaryOp):
+                    par = db.parent(par)
+                if isinstance(par, ast.BoolOp) and isinstance(par.op, ast.And):
+                    for v in par.values:
+                        if any(x is call for x in ast.walk(v)):
+                            break
+                        gs.append((v, True))
+                params = fn_params(m)
+                atoms: List[str] = []
+                fixed: Dict[str, bool] = {}
+
+                def atom_of(e, m=m, params=params):
+                    if not isinstance(e, (ast.Name, ast.Attribute, ast.Call, ast.Subscript)):
+                        return None
+                    u = unparse(e)
+                    if "_is_false_" in u or u == "is_false":
+                        fixed[u] = False                 # the question is about TRUE rows
+                    elif isinstance(e, ast.Name) and e.id in [q for q, _ in params]:
+                        # the value the chain's own callers pass
+                        vals = set()
+                        for cm in chain:
+                            for cc in own_calls(cm):
+                                if call_attr(cc) == m.name and cm is not m:
+                                    am = bind_args(params, cc)
+                                    a = am.get(e.id)
+                                    if a is None:
+                                        dv = _default_of(m, e.id)
+                                        vals.add(("default", unparse(dv) if dv is not None else "?"))
+                                    elif isinstance(a, ast.Constant):
+                                        vals.add(("const", repr(a.value)))
+                                    else:
+                                        vals.add(("expr", unparse(a)))
+                        if vals and all(k in ("const", "default") for k, _ in vals) and len({v for _, v in vals}) == 1:
+                            v = next(iter(vals))[1]
+                            if v in ("True", "False"):
+                                fixed[u] = v == "True"
+                    if u not in atoms:
+                        atoms.append(u)
+                    return u
+                from ..boolexpr import eval_bool
+
+                class _Any(dict):
+                    def __missing__(self, k):
+                        return True
+                try:
+                    for g, _ in gs:
+                        eval_bool(g, atom_of, _Any())
+                    free = [a for a in atoms if a not in fixed]
+                    import itertools
+                    reach = False
+                    for vals in itertools.product([False, True], repeat=len(free)):
+                        env = dict(zip(free, vals))
+                        env.update(fixed)
+                        if all(bool(eval_bool(g, atom_of, env)) == pol for g, pol in gs):
+                            reach = True
+                            break
+                except AnalysisError:
+                    reach = True
+                if reach:
+                    bad = (m, call, [unparse(g) for g, _ in gs], "")
+                    break
+            if bad:
+                break
+        out.append(inst("SELECTOR-ROW-DEDUP", VIOLATION if bad else HOLDS, bad[0] if bad else c, f"{cname}[true rows are not dropped by variable values]",
+                        f"{n_sites} site(s) of its evaluation chain apply the duplicate test, all to false rows only (they carry no conclusion)" if not bad else
+                        f"`{bad[0].short}` (line {bad[1].lineno}), part of {cname}'s evaluation, applies `{dup.short}` to a true row: a row that agrees with an "
+                        f"earlier one on the variables the conclusions mention is dropped before the selector below it has chosen its conclusion - the "
+                        f"refinement's conclusion for that assignment is lost (an alternative that is not the last of its chain, a refinement on a variable "
+                        f"no conclusion mentions)", line=bad[1].lineno if bad else None))
+    return out
+
